@@ -1,6 +1,7 @@
 package main
 
 import (
+	"fmt"
 	"reflect"
 	"strconv"
 	"strings"
@@ -171,6 +172,13 @@ func readList(sp *url.SearchParams) []Pair {
 	return out
 }
 
+// readListSynced performs one public read first (an implementation may synchronise the list
+// lazily on access; only what public methods show counts) and then reads the list.
+func readListSynced(sp *url.SearchParams) []Pair {
+	_ = sp.Has("")
+	return readList(sp)
+}
+
 // scalar maps invalid UTF-8 to U+FFFD (the statements treat strings as scalar value strings).
 func scalar(s string) string { return string([]rune(s)) }
 
@@ -212,4 +220,10 @@ func pairsString(l []Pair) string {
 	return sb.String()
 }
 
-func q(s string) string { return strconv.QuoteToASCII(s) }
+// q quotes for logs and witnesses; very long strings are abbreviated (the plan keeps them whole).
+func q(s string) string {
+	if len(s) > 300 {
+		return strconv.QuoteToASCII(s[:120]) + fmt.Sprintf("...(%d bytes)...", len(s)) + strconv.QuoteToASCII(s[len(s)-40:])
+	}
+	return strconv.QuoteToASCII(s)
+}
